@@ -260,9 +260,29 @@ def replay_api_forward(model, obligation, **kw):
     return dict(confirmed=None, detail='clause not replayable natively')
 
 
-def replay_padding(model, obligation, version, level):
-    """run the three real writers on a real Buffer of the model's length"""
-    l = int(model.get('stream_length', 0))
+def replay_padding(model, obligation, version, level, _sweep=True):
+    """run the three real writers on a real Buffer of the model's length; if that length does not fail natively (the model of an
+    invariant obligation need not be a reachable state) the neighbouring lengths, the short ones and those close to the capacity are tried"""
+    l = int((model or {}).get('stream_length', 0))
+    if _sweep:
+        cap0 = iso.data_capacity_bits(version, level)
+        cands = [l] + [x for x in list(range(max(0, l - 40), min(cap0, l + 40) + 1)) + list(range(0, min(cap0, 300) + 1)) + list(range(max(0, cap0 - 80), cap0 + 1))]
+        seen = set()
+        first = None
+        for x in cands:
+            if x in seen or not 0 <= x <= cap0:
+                continue
+            seen.add(x)
+            # lengths of the known finding (terminated stream codeword aligned, every version but M1 / M3) are only replayed when
+            # they are the model's own length: the sweep looks for a failing input of THIS obligation, not for the known deviation
+            if x != l and version not in (iso.M1, iso.M3) and iso.terminated_length(version, level, x) % 8 == 0:
+                continue
+            r = replay_padding(dict(stream_length=x), obligation, version, level, _sweep=False)
+            if first is None:
+                first = r
+            if r.get('confirmed'):
+                return r
+        return first
     cap = consts.SYMBOL_CAPACITY[version][_lc(level)]
     ver = None if version >= 1 else version
     buff = encoder.Buffer([1] * l)
@@ -286,6 +306,15 @@ def replay_padding(model, obligation, version, level):
     if 'exact_length' in (obligation or '') and len(bits) != isocap:
         return dict(confirmed=True, call=call, detail='buffer holds %d bits, capacity is %d' % (len(bits), isocap))
     return dict(confirmed=False, call=call, detail='first %d bits equal the ISO stream' % isocap)
+
+
+def replay_padding_table(model, obligation, version):
+    """table lemma of C13: the user visible effect is looked for on every level of the version"""
+    for lv in iso.levels_of(version):
+        r = replay_padding(dict(stream_length=0), obligation, version, lv)
+        if r.get('confirmed'):
+            return r
+    return dict(confirmed=None, detail='table cell differs from ISO (see witness) but no stream of version %s was found to be padded wrongly' % iso.version_name(version))
 
 
 # ---------------------------------------------------------------- C02 replays (native execution of the real stage)
@@ -795,15 +824,21 @@ def _spec_mode(data):
 
 def replay_is_kanji(model, obligation):
     extra = [b'\x83\x3f', b'\x83\x7f', b'\x9f\xfd', b'\xe0\x3f', b'\x81\x40', b'\x9f\xfc', b'\xeb\xbf', b'\x88\x9f\x00']
-    for data in _candidates_from(_bytes_of(model)) + extra:
+    # the counterexample of an invariant obligation lives at an arbitrary loop iteration: besides the model's own bytes every
+    # two-byte string is tried (a failing pair is a failing input on its own)
+    allpairs = [bytes((a, b)) for a in range(256) for b in range(256)]
+    for data in _candidates_from(_bytes_of(model)) + extra + allpairs:
         try:
             got = bool(encoder.is_kanji(data))
         except Exception as ex:
             return dict(confirmed=True, call='encoder.is_kanji(%r)' % data, detail='raised %r' % (ex,))
         if got != _spec_kanji(data):
+            try:
+                vis = 'segno.make(%r).mode == %r' % (data, segno.make(data).mode)
+            except Exception as ex:
+                vis = 'segno.make(%r) raises %r' % (data, ex)
             return dict(confirmed=True, call='encoder.is_kanji(%r)' % data,
-                        detail='returned %r; valid double-byte Shift JIS kanji per ISO 7.4.6: %r (user visible: segno.make(%r).mode == %r)' % (
-                            got, _spec_kanji(data), data, segno.make(data).mode))
+                        detail='returned %r; valid double-byte Shift JIS kanji per ISO 7.4.6: %r (user visible: %s)' % (got, _spec_kanji(data), vis))
     return dict(confirmed=False, detail='is_kanji agrees with the specification on the tried byte strings')
 
 
@@ -1197,7 +1232,7 @@ def replay_sequence(model, obligation, content, kw):
 def replay_sequence_structure(model, obligation, mode, cfg):
     import ast
     from . import qrdecode
-    c = dict(ast.literal_eval(cfg), error='M')
+    c = dict(dict(error='M'), **ast.literal_eval(cfg))
     unit = {'numeric': '0123456789', 'alphanumeric': 'AB C1$', 'byte': 'abcé', 'kanji': '点茗テ'}[mode]
     n = int((model or {}).get('content_length', 20))
     for ln in (n % 300, 70, 8, 11, 16, 17, 100):
@@ -1211,6 +1246,10 @@ def replay_sequence_structure(model, obligation, mode, cfg):
             continue
         except Exception as ex:
             return dict(confirmed=True, call=call, detail='raised %r' % (ex,))
+        if c.get('mask') is not None and any(q.mask != c['mask'] for q in seq):
+            return dict(confirmed=True, call=call, detail='requested mask %r, symbols use %r' % (c['mask'], [q.mask for q in seq]))
+        if c.get('boost_error') is False and any(q.error != c['error'].upper() for q in seq):
+            return dict(confirmed=True, call=call, detail='requested level %r without boosting, symbols use %r' % (c['error'], [q.error for q in seq]))
         decs = [qrdecode.decode(q.matrix) for q in seq]
         counts = []
         for d in decs:
@@ -1237,7 +1276,7 @@ def replay_escape(model, obligation):
         if '\r' in img or '\n' in img:
             bad.append(('vcard', cp, img))
         img = H._escape_mecard(c)
-        if (c == ';' and img != '\;') or (c == '\\' and img != '\\\\'):
+        if (c == ';' and img != '\\;') or (c == '\\' and img != '\\\\'):
             bad.append(('mecard', cp, img))
     return dict(confirmed=bool(bad), call='_escape_vcard(chr(c)) / _escape_mecard(chr(c)) for all c < 0x250', detail='(table, char, image): %r' % (bad[:4],))
 
@@ -1476,7 +1515,34 @@ def replay_routes(model, obligation, kind=None, opts='{}', content='Hello', mk='
     import shutil
     import tempfile
     from urllib.parse import unquote_to_bytes
-    if kind in (None, 'seq', 'terminal'):
+    if kind == 'seq':
+        tmp = tempfile.mkdtemp(prefix='c12s')
+        probs = []
+        try:
+            seq = segno.make_sequence('A' * 60, version=1)
+            n = len(seq)
+            os.makedirs(os.path.join(tmp, 'dir.x'))
+            for rel in ('dir.x/name.svg', 'name.v2.png', 'plain.txt'):
+                try:
+                    seq.save(os.path.join(tmp, rel), scale=2) if not rel.endswith('txt') else seq.save(os.path.join(tmp, rel))
+                except Exception as ex:
+                    probs.append('QRCodeSequence.save(%r) raised %r' % (rel, ex))
+                    continue
+                stem, _, ext = rel.rpartition('.')
+                for i, q in enumerate(seq, start=1):
+                    fn = os.path.join(tmp, '%s-%02d-%02d.%s' % (stem, n, i, ext))
+                    if not os.path.exists(fn):
+                        probs.append('save(%r) of %d symbols did not write %s (directory has %r)' % (rel, n, os.path.basename(fn), sorted(os.listdir(os.path.dirname(fn)))[:4]))
+                        break
+                    o = io.StringIO() if ext == 'txt' else io.BytesIO()
+                    q.save(o, kind=ext, **({} if ext == 'txt' else dict(scale=2)))
+                    with open(fn, 'r' if ext == 'txt' else 'rb') as fh:
+                        if fh.read() != o.getvalue():
+                            probs.append('%s differs from symbol %d saved on its own' % (os.path.basename(fn), i))
+        finally:
+            shutil.rmtree(tmp, ignore_errors=True)
+        return dict(confirmed=True if probs else None, call="segno.make_sequence('A' * 60, version=1).save(<name>)", detail='; '.join(probs[:3]) or 'files as specified for the tried names')
+    if kind in (None, 'terminal'):
         return dict(confirmed=None, detail='route %r: see the witness in the replay file' % kind)
     o, m = ast.literal_eval(opts), ast.literal_eval(mk)
     text = kind in ('txt', 'ans', 'xbm', 'xpm', 'tex', 'eps')
@@ -1509,15 +1575,24 @@ def replay_routes(model, obligation, kind=None, opts='{}', content='Hello', mk='
             if base64.b64decode(qr.png_data_uri(**o).split(',', 1)[1]) != ref:
                 probs.append('png_data_uri differs')
         if kind == 'svg':
-            zp = os.path.join(tmp, 'a.svgz')
-            qr.save(zp, **o)
-            if gzip.open(zp).read() != ref:
-                probs.append('svgz differs')
+            for zext in ('svgz', 'SVGZ', 'Svgz'):
+                zp = os.path.join(tmp, 'z.' + zext)
+                try:
+                    qr.save(zp, **o)
+                    if gzip.open(zp).read() != ref:
+                        probs.append('z.%s is not the gzip of the SVG document' % zext)
+                    zp2 = os.path.join(tmp, 'k-' + zext)
+                    qr.save(zp2, kind=zext, **o)
+                    if gzip.open(zp2).read() != ref:
+                        probs.append('save(name, kind=%r) is not the gzip of the SVG document' % zext)
+                except Exception as ex:
+                    probs.append('save(%r) raised %r' % ('z.' + zext, ex))
             uo = {k: v for k, v in o.items() if k not in ('xmldecl', 'nl')}
             o3 = io.BytesIO()
             qr.save(o3, kind='svg', xmldecl=False, nl=False, **uo)
             dec = unquote_to_bytes(qr.svg_data_uri(**uo).partition(',')[2])
-            if dec != o3.getvalue():
+            # (the known single-quote spelling of the data URI route is not what a replay is looking for)
+            if dec.replace(b"'", b'"') != o3.getvalue().replace(b"'", b'"'):
                 probs.append('svg_data_uri decodes to %r..., svg document %r...' % (dec[:60], o3.getvalue()[:60]))
         from segno import cli
         flags = {'scale': '--scale', 'border': '--border', 'dark': '--dark', 'light': '--light', 'title': '--title', 'desc': '--desc', 'svgid': '--svgid',
@@ -1542,8 +1617,12 @@ def replay_routes(model, obligation, kind=None, opts='{}', content='Hello', mk='
             if rc != 0 or not os.path.exists(cp):
                 probs.append('segno %s exited with %r' % (' '.join(argv), rc))
             else:
+                # the command line never uses micro=None: compare with the API symbol made with the same micro flag
+                q2 = segno.make(content, **dict(m, micro=bool(m.get('micro'))))
+                o2 = io.StringIO() if text else io.BytesIO()
+                q2.save(o2, kind=kind, **o)
                 with open(cp, 'r' if text else 'rb', **({'encoding': o.get('encoding', 'utf-8'), 'newline': ''} if text else {})) as fh:
-                    if mask(fh.read()) != ref:
+                    if mask(fh.read()) != mask(o2.getvalue()):
                         probs.append('file written by "segno %s" differs from the API output' % ' '.join(argv[:-3]))
     finally:
         shutil.rmtree(tmp, ignore_errors=True)
@@ -1606,8 +1685,65 @@ def replay_purity(model, obligation):
         for j, got in out:
             if got != fresh[j]:
                 probs.append('make(%r, **%r) differs under 16 concurrent threads' % calls[j])
+    # idempotence: encoding again with the chosen version / level / mask and boosting disabled reproduces the matrix
+    idem = calls + [('hello', {}), ('ab', dict(micro=True)), ('12345678901', {}), ('HELLO WORLD', dict(micro=True)), ('hello world', dict(error='l'))]
+    for c, kw in idem:
+        try:
+            q = segno.make(c, **kw)
+        except ValueError:
+            continue
+        q2 = segno.make(c, version=q.version, error=q.error, mask=q.mask, boost_error=False, **{a: b for a, b in kw.items() if a not in ('version', 'error', 'mask', 'boost_error')})
+        if q2.matrix != q.matrix or q2.designator != q.designator:
+            probs.append('make(%r, **%r) is %s mask %d; encoding again with that version, level and mask (boost_error=False) gives %s with a different matrix' % (
+                c, kw, q.designator, q.mask, q2.designator))
     if snap() != s0:
         s1 = snap()
         probs.append('module level containers changed: %s' % sorted(k for k in s0 if s0[k] != s1.get(k))[:4])
     return dict(confirmed=True if probs else None, call='purity battery of %d calls (fresh, reordered, equal-hashing, 16 threads)' % len(calls),
                 detail='; '.join(sorted(set(probs))[:3]) or 'no behavioural difference observed by the native battery')
+
+
+def replay_colourful_map(model, obligation):
+    """native: every per-type colour option is honoured by the colour-indexed serialisers (PNG pixels read back)"""
+    import io
+    from . import readers_raster as RR
+    from segno import consts as c
+    probs = []
+    for content, kw in (('1', dict(micro=True)), ('Hello', dict(micro=False)), ('v2', dict(version=2)), ('version seven', dict(version=7))):
+        qr = segno.make(content, **kw)
+        names = {'finder_dark': c.TYPE_FINDER_PATTERN_DARK, 'finder_light': c.TYPE_FINDER_PATTERN_LIGHT, 'data_dark': c.TYPE_DATA_DARK, 'data_light': c.TYPE_DATA_LIGHT,
+                 'version_dark': c.TYPE_VERSION_DARK, 'version_light': c.TYPE_VERSION_LIGHT, 'format_dark': c.TYPE_FORMAT_DARK, 'format_light': c.TYPE_FORMAT_LIGHT,
+                 'alignment_dark': c.TYPE_ALIGNMENT_PATTERN_DARK, 'alignment_light': c.TYPE_ALIGNMENT_PATTERN_LIGHT, 'timing_dark': c.TYPE_TIMING_DARK,
+                 'timing_light': c.TYPE_TIMING_LIGHT, 'separator': c.TYPE_SEPARATOR, 'dark_module': c.TYPE_DARKMODULE, 'quiet_zone': c.TYPE_QUIET_ZONE}
+        types = [[t for t in row] for row in qr.matrix_iter(scale=1, border=1, verbose=True)]
+        for opt, t in names.items():
+            if not any(t in row for row in types):
+                continue
+            out = io.BytesIO()
+            qr.save(out, kind='png', scale=1, border=1, **{opt: '#ff0000'})
+            r = RR.read_png(out.getvalue())
+            for y, row in enumerate(types):
+                for x, tt in enumerate(row):
+                    is_red = tuple(r.pixels[y][x][:3]) == (255, 0, 0)
+                    if (tt == t) != is_red and len(probs) < 3:
+                        probs.append('%s: save(kind="png", %s="#ff0000"): pixel (%d,%d) of type %d is %r' % (qr.designator, opt, x, y, tt, tuple(r.pixels[y][x])))
+    return dict(confirmed=True if probs else None, call='per-type colour options on PNG', detail='; '.join(probs) or 'no difference observed natively')
+
+
+def replay_iter_refusal(model, obligation, function, scale, border, ok):
+    """native: utils.matrix_iter / matrix_iter_verbose on a real symbol with the given scale / border"""
+    from segno import utils
+    qr = segno.make('Hello', micro=False)
+    size = len(qr.matrix)
+    call = 'utils.%s(matrix, (%d, %d), scale=%r, border=%r)' % (function, size, size, scale, border)
+    try:
+        rows = list(getattr(utils, function)(qr.matrix, (size, size), scale=scale, border=border))
+    except ValueError as ex:
+        return dict(confirmed=bool(ok), call=call, detail='refused with ValueError: %s' % ex)
+    except Exception as ex:
+        return dict(confirmed=True, call=call, detail='raised %r (only ValueError is allowed)' % (ex,))
+    if not ok:
+        return dict(confirmed=True, call=call, detail='accepted (%d rows) although the argument is outside the documented domain; ValueError expected' % len(rows))
+    want = (size + 2 * (4 if border is None else int(border))) * int(scale)
+    bad = len(rows) != want or any(len(r) != want for r in rows)
+    return dict(confirmed=bad, call=call, detail='%d rows, expected %d' % (len(rows), want))
